@@ -72,7 +72,7 @@ def body(ck, F, cfg):
     SV = flatten.check(ck, F, "verifier", "R05.2")
     # R05.3 provenance of bases
     V = AN.verify_full(F)
-    msms = [mm for mm in V["I"].msm_log if mm["fn"].endswith("verify_and_return_transcript")]
+    msms = list(V["I"].msm_log)  # whole dynamic extent of the verify run
     if len(msms) == 1:
         compare_bases(ck, "R05.3", msms[0]["bases"], [s for s in REF.base_layout(pad)], V["I"].bounds, "src/r1cs/verifier.rs", prefix="verify:")
     else:
